@@ -357,6 +357,20 @@ theorem run_low {cfg : Cfg} {h : Dispatch D R} (hh : Honest h) (pw : Bytes) (b :
 
 /-! ### Pipelines -/
 
+/-- Nothing is kept back for a connection that stays low: the deferring loop is the plain loop. -/
+theorem runFramesD_low {cfg : Cfg} {h : Dispatch D R} (hh : Honest h) (c : Nat) (pw : Bytes)
+    (reqs : List Req) (hno : ∀ r ∈ reqs, isExactAuth cfg pw r = false) :
+    ∀ (s : Server D), s.password = some pw → low (stateOf s.conns c) →
+      Code.runFramesD cfg h s c reqs = ((Code.runFrames cfg h s c reqs).1, (Code.runFrames cfg h s c reqs).2, []) := by
+  induction reqs with
+  | nil => intro s _ _; rfl
+  | cons r rs ih =>
+    intro s hpw hc
+    have h1 := frame_low (cfg := cfg) hh s c r pw hpw c hc (fun _ => hno r (by simp))
+    have hnb : ¬ stateOf (Code.processConnectionFrame cfg h s c r).1.conns c = some .blocked := h1.2.2
+    have := ih (fun r' hr' => hno r' (by simp [hr'])) _ h1.1 h1.2
+    simp only [Code.runFramesD, Code.runFrames, hnb, if_false, this]
+
 theorem runFrames_append (cfg : Cfg) (h : Dispatch D R) (c : Nat) (xs ys : List Req) :
     ∀ s : Server D, Code.runFrames cfg h s c (xs ++ ys) =
       ((Code.runFrames cfg h (Code.runFrames cfg h s c xs).1 c ys).1,
